@@ -445,6 +445,28 @@ fn parse_eso_data(eso_pdf_text: &str) -> Result<EsoData, SError> {
     let grant_sale_prices = search_for_dec_rows("Sale Price", true, body)?;
     let grant_fees = search_for_dec_rows("Comission/Fee", true, body)?;
 
+    // Every grant must come with exactly one row of each kind. The lists are
+    // zipped below, which would otherwise silently stop at the shortest one.
+    let n_grants = grant_indicies.len();
+    if grant_numbers.len() != n_grants
+        || grant_exercise_fmvs.len() != n_grants
+        || grant_shares_exercised.len() != n_grants
+        || grant_sale_prices.len() != n_grants
+        || grant_fees.len() != n_grants
+    {
+        return Err(format!(
+            "Exercise details are incomplete: {} grants, but {} Grant Number, \
+             {} Exercise Market Value, {} Shares Exercised, {} Sale Price, \
+             {} Comission/Fee rows",
+            n_grants,
+            grant_numbers.len(),
+            grant_exercise_fmvs.len(),
+            grant_shares_exercised.len(),
+            grant_sale_prices.len(),
+            grant_fees.len()
+        ));
+    }
+
     let mut grants = Vec::with_capacity(grant_indicies.len());
     for (((((_, num), fmv), shares), s_price), fee) in grant_indicies
         .iter()
